@@ -146,7 +146,11 @@ func c08Walk(l *core.Ledger, rule, rootKey string, root *frame, ctx ssa.Value) i
 						l.Bad(rule, key, pos, "blocking select without a case on the call's own context ("+selectCasesDesc(op.sel)+"): the caller ignores cancellation/deadline while this wait lasts")
 					}
 				case "deliver":
-					l.OK(rule, key, pos, "delivery to a streaming router: waits only for a call that is still running, and not beyond its completion (C09-W3)")
+					if bd := boundedDelivery(l, runtimePkg(l)); bd.ok {
+						l.OK(rule, key, pos, "delivery to a streaming router: waits only for a call that is still running, and not beyond its completion (C09-W3)")
+					} else {
+						l.Bad(rule, key, pos, "delivery to a streaming router can wait for a call that has ended ("+bd.why+"): the call's own deferred clean-up and every other call on the node then wait for responseMut behind it, whatever their contexts say")
+					}
 				case "send":
 					if isResponseChan(op.chanT) {
 						l.OK(rule, key, pos, "send on a reply channel: cannot block given the capacity rule C05-M6 / C09-W3")
